@@ -31,7 +31,7 @@ def run(repo='/repo', tier='quick'):
         guards = [b for b in fn.blocks if fn.cond_of(b) and P.canon(fn.cond_of(b)[0]) == (skey, '==', 'HTP_STREAM_TUNNEL')]
         for g in guards:
             for atoms, events, end in P.enum_paths(fn, (fn.blocks[g]['succs'][0], -1)):
-                okr = end[0] == 'return' and lit_name(P.ret_value(end[3])) == 'HTP_STREAM_TUNNEL' and len(events) == 1
+                okr = end[0] == 'return' and lit_name(P.ret_value(end[3])) == 'HTP_STREAM_TUNNEL' and all(ev[2] is end[3] or P.call_name_of(ev[2]) in ('fprintf', 'fprint_raw_data', 'fprint_raw_data_ex') for ev in events)      # (trace output of the debug configuration is not an action)
                 res.check(okr, 'C16.a', '%s:tunnel-arm-returns-TUNNEL' % dn, 'the TUNNEL arm returns HTP_STREAM_TUNNEL and does nothing else',
                           'the TUNNEL arm does something other than return HTP_STREAM_TUNNEL', fn.blocks[g]['stmts'][-1]['loc'])
         # --- C16.a (2): between an OK state return and the state-change handler the TUNNEL test is repeated
